@@ -389,6 +389,22 @@ def gen_Defaults():
     write("Defaults", body, "magpylib/_src/defaults/defaults_values.py:DEFAULTS")
 
 
+def gen_StyleSchema():
+    """class structure, validators and value panel of every property class reachable from DefaultSettings and from the
+    style classes of the object classes; DEFAULTS as a tree of panel values (translate/style_schema.py)"""
+    import style_schema
+
+    try:
+        text, _ = style_schema.lean_text(style_schema.probe())
+    except style_schema.Refusal as r:
+        raise Refusal(str(r)) from r
+    finally:
+        import magpylib
+
+        magpylib.defaults.reset()
+    write("StyleSchema", text, "magpylib/_src/defaults/defaults_classes.py, defaults_values.py, style.py (reflection + probing of every setter)")
+
+
 def gen_Units():
     """`_UNIT_PREFIX` (power of ten -> prefix) and, for every prefix p, the decimal exponent k with
     get_unit_factor(p+'m', target_unit='m') = 10^k (to 1e-12 relative; anything else is refused)"""
@@ -555,7 +571,7 @@ def gen_CylSegGen():
     write("CylSegGen", text, cylseg2lean.REL_SRC)
 
 
-GENERATORS = {"KernTrace": gen_KernTrace, "StyleTemp": gen_StyleTemp, "Const": gen_Const, "Units": gen_Units, "Defaults": gen_Defaults, "Attr": gen_Attr, "PathPad": gen_PathPad, "Exits": gen_Exits, "Ndim": gen_Ndim, "Tol": gen_Tol, "CylSegGen": gen_CylSegGen}
+GENERATORS = {"KernTrace": gen_KernTrace, "StyleTemp": gen_StyleTemp, "Const": gen_Const, "Units": gen_Units, "Defaults": gen_Defaults, "StyleSchema": gen_StyleSchema, "Attr": gen_Attr, "PathPad": gen_PathPad, "Exits": gen_Exits, "Ndim": gen_Ndim, "Tol": gen_Tol, "CylSegGen": gen_CylSegGen}
 
 
 def main():
